@@ -176,6 +176,32 @@ def run(ctx):
             ctx.violation(
                 f"{kind} differs from its set-theoretic definition",
                 {"kind": kind, "ref": ref, "pred": pred, "ri": ri, "pi": pi, "implementation": im, "definition": o})
+    # call sequences on the SAME array objects edited in place between calls (hidden state / caching must not leak)
+    rng = ctx.rng
+    seq_in, seq_meta = [], []
+    for _ in range(ctx.scale(40, 400)):
+        nd = rng.choice([1, 2, 3])
+        shape = tuple(rng.randint(2, 5) for _ in range(nd))
+        dt = rng.choice(DTYPES)
+        ref = np.array([rng.choice([0, 1, 1, 2]) for _ in range(int(np.prod(shape)))], dtype=dt).reshape(shape)
+        pred = np.array([rng.choice([0, 1, 2, 2]) for _ in range(int(np.prod(shape)))], dtype=dt).reshape(shape)
+        ri, pi = rng.choice([1, 2]), rng.choice([1, 2, [1, 2]])
+        for stepno in range(rng.randint(2, 4)):
+            kind = rng.choice(["DSC", "IOU", "RVD"])
+            im = impl_call(kind, ref, pred, ri, pi)
+            seq_in.append(model_case(kind, ref, pred, ri, pi))
+            seq_meta.append((kind, ref.copy(), pred.copy(), ri, pi, im, stepno))
+            target = ref if rng.random() < 0.6 else pred
+            flat = target.reshape(-1)
+            for _k in range(rng.randint(1, 3)):
+                flat[rng.randrange(flat.size)] = rng.choice([0, 1, 2])
+    seq_out = engine_run(601, seq_in)
+    for (kind, ref, pred, ri, pi, im, stepno), o in zip(seq_meta, seq_out):
+        ctx.count({"kind": kind, "sequence_step": stepno, "ref": ref.tolist(), "pred": pred.tolist(), "ri": ri, "pi": pi}, stepno > 0)
+        ctx.bump(f"{kind}/in-place sequence")
+        if not agree(kind, im, o):
+            ctx.violation(f"{kind} differs from its definition after the arrays were edited in place between calls (step {stepno})",
+                          {"kind": kind, "ref": ref, "pred": pred, "ri": ri, "pi": pi, "implementation": im, "definition": o, "sequence_step": stepno})
     step = max(1, len(ins) // 60)
     triples += [(601, i, o) for i, o in list(zip(ins, outs))[::step]][:80]
     n, bad = coq_crosscheck("C06", triples)
